@@ -122,6 +122,20 @@ func (g *Gen) boundaryRoot(L int) cid.Cid {
 }
 
 func genArchive(g *Gen, maxBlocks int) (roots string, bs []Blk, ver int, dp uint64, arch []byte, payloadEnd int) {
+	if corpusArchives == 4 || corpusArchives == 5 {
+		// … and two archives without any block: a CARv1 that is its header, a CARv2 with an (empty) index
+		k := corpusArchives
+		corpusArchives++
+		r := []cid.Cid{g.Block().C}
+		roots = rootsArg(r)
+		if k == 4 {
+			arch = writeAll(r, nil, true)
+			return roots, nil, 1, 0, arch, len(arch)
+		}
+		arch = writeAll(r, nil, false)
+		payloadEnd = int(leU64(arch[27:35]) + leU64(arch[35:43]))
+		return roots, nil, 2, 0, arch, payloadEnd
+	}
 	if corpusArchives < 4 {
 		// the first four archives of every family that uses genArchive are a fixed corpus: the edge
 		// block list under edge root lists (a repeated root with every root present; roots whose length
